@@ -2,7 +2,7 @@ import Verif.Model.FailClosed
 /-!
   C17 — property theorems.  Every theorem quantifies over an arbitrary environment
   `e : Env` (fault function `e.f` over positions of the executed trace, in-process decisions
-  `e.g`), so it covers every fault sequence.
+  `e.g`, database or `db.SimpleDB`), so it covers every fault sequence.
 -/
 namespace Verif.FailClosed
 
@@ -20,10 +20,10 @@ theorem run_append (e : Env) (xs ys : List Kind) (s : St) :
     | next s' => simp [ih]
     | abort s' => simp
 
-theorem benign_cons_ok {ev : Ev} {l : List Ev} (h : ev.out = .ok ∨ ev.kind.tolerated = true) :
+theorem benign_cons_harmless {ev : Ev} {l : List Ev} (h : ev.harmless = true) :
     benign (ev :: l) = benign l := by
   cases l with
-  | nil => rcases h with h | h <;> simp [benign, h]
+  | nil => simp [benign, h]
   | cons a l => simp [benign, h]
 
 theorem benign_append {l1 l2 : List Ev} (h1 : benign l1 = true) (h2 : benign l2 = true) :
@@ -31,106 +31,114 @@ theorem benign_append {l1 l2 : List Ev} (h1 : benign l1 = true) (h2 : benign l2 
   induction l1 using benign.induct with
   | case1 => simpa using h2
   | case2 ev =>
-    have hc : ev.out = .ok ∨ ev.kind.tolerated = true := by simpa [benign] using h1
+    have hc : ev.harmless = true := by simpa [benign] using h1
     simp only [List.cons_append, List.nil_append]
-    rw [benign_cons_ok hc]; exact h2
+    rw [benign_cons_harmless hc]; exact h2
   | case3 ev ev2 rest hc ih =>
     simp only [benign, hc, if_true] at h1
     simp only [List.cons_append]
-    rw [benign_cons_ok hc]; exact ih h1
+    rw [benign_cons_harmless hc]; exact ih h1
   | case4 ev ev2 rest hc ih =>
-    simp only [benign, hc, if_false, Bool.and_eq_true] at h1
-    simp only [List.cons_append, benign, hc, if_false, Bool.and_eq_true]
+    simp only [benign, hc, Bool.false_eq_true, if_false, Bool.and_eq_true] at h1
+    simp only [List.cons_append, benign, hc, Bool.false_eq_true, if_false, Bool.and_eq_true]
     exact ⟨h1.1, ih h1.2⟩
 
+/-- the events a benign trace may contain -/
 theorem benign_mem {l : List Ev} (h : benign l = true) {ev : Ev} (hm : ev ∈ l) :
-    ev.out = .ok ∨ ev.kind.tolerated = true ∨ (ev.kind.isWebhook = true ∧ ev.out = .error) := by
+    ev.harmless = true ∨ (ev.kind.isWebhook = true ∧ ev.out = .error) := by
   induction l using benign.induct with
   | case1 => simp at hm
   | case2 x =>
-    have hc : x.out = .ok ∨ x.kind.tolerated = true := by simpa [benign] using h
+    have hc : x.harmless = true := by simpa [benign] using h
     simp at hm; subst hm
-    rcases hc with hc | hc
-    · exact Or.inl hc
-    · exact Or.inr (Or.inl hc)
+    exact Or.inl hc
   | case3 x x2 rest hc ih =>
     simp only [benign, hc, if_true] at h
     rcases List.mem_cons.mp hm with rfl | hm'
-    · rcases hc with hc | hc
-      · exact Or.inl hc
-      · exact Or.inr (Or.inl hc)
+    · exact Or.inl hc
     · exact ih h hm'
   | case4 x x2 rest hc ih =>
-    simp only [benign, hc, if_false, Bool.and_eq_true, beq_iff_eq] at h
+    simp only [benign, hc, Bool.false_eq_true, if_false, Bool.and_eq_true, beq_iff_eq] at h
     obtain ⟨⟨⟨⟨hw, he⟩, hk⟩, ho⟩, hb⟩ := h
     rcases List.mem_cons.mp hm with rfl | hm'
-    · exact Or.inr (Or.inr ⟨hw, he⟩)
+    · exact Or.inr ⟨hw, he⟩
     · rcases List.mem_cons.mp hm' with rfl | hm''
       · exact Or.inl ho
       · exact ih hb hm''
 
 /-- two consecutive failed attempts at a webhook never occur in a benign trace -/
-theorem not_benign_double (k : Kind) (o : Outcome) (post : List Ev) (ho : o ≠ .ok) (hw : k.isWebhook = true) :
+theorem not_benign_double (k : Kind) (o : Outcome) (post : List Ev)
+    (h1 : (⟨k, .error⟩ : Ev).harmless = false) (h2 : (⟨k, o⟩ : Ev).harmless = false) :
     ∀ (pre : List Ev), benign (pre ++ ⟨k, .error⟩ :: ⟨k, o⟩ :: post) = true → False := by
-  have hk : k.tolerated = false := by cases k <;> simp_all [Kind.isWebhook, Kind.tolerated]
   intro pre
   induction pre using benign.induct with
   | case1 =>
     intro h
-    simp [benign, hk, ho] at h
+    simp [benign, h1, h2] at h
   | case2 x =>
     intro h
-    by_cases hc : x.out = .ok ∨ x.kind.tolerated = true
+    by_cases hc : x.harmless = true
     · simp only [List.cons_append, List.nil_append] at h
-      rw [benign_cons_ok hc] at h
-      simp [benign, hk, ho] at h
-    · simp only [List.cons_append, List.nil_append, benign, hc, if_false, Bool.and_eq_true, beq_iff_eq] at h
-      exact absurd h.1.2 (by simp)
+      rw [benign_cons_harmless hc] at h
+      simp [benign, h1, h2] at h
+    · simp only [List.cons_append, List.nil_append, benign, hc, Bool.false_eq_true, if_false, Bool.and_eq_true] at h
+      simp [h1] at h
   | case3 x x2 rest hc ih =>
     intro h
     simp only [List.cons_append] at h
-    rw [benign_cons_ok hc] at h
+    rw [benign_cons_harmless hc] at h
     exact ih h
   | case4 x x2 rest hc ih =>
     intro h
-    simp only [List.cons_append, benign, hc, if_false, Bool.and_eq_true] at h
+    simp only [List.cons_append, benign, hc, Bool.false_eq_true, if_false, Bool.and_eq_true] at h
     exact ih h.2
 
 @[simp] theorem call_fst (e : Env) (s : St) (k : Kind) : (call e s k).1 = e.f s.log.length := rfl
 @[simp] theorem call_log (e : Env) (s : St) (k : Kind) :
     (call e s k).2.log = s.log ++ [⟨k, e.f s.log.length⟩] := rfl
 @[simp] theorem call_d (e : Env) (s : St) (k : Kind) : (call e s k).2.d = s.d := rfl
+@[simp] theorem call_allowed (e : Env) (s : St) (k : Kind) : (call e s k).2.allowed = s.allowed := rfl
 @[simp] theorem decide'_log (e : Env) (s : St) : (decide' e s).2.log = s.log := rfl
 @[simp] theorem decide'_d (e : Env) (s : St) : (decide' e s).2.d = s.d := rfl
+@[simp] theorem decide'_allowed (e : Env) (s : St) : (decide' e s).2.allowed = s.allowed := rfl
 @[simp] theorem spend_log (s : St) : (spend s).log = s.log := rfl
 @[simp] theorem addCert_log (s : St) (b : Bool) : (addCert s b).log = s.log := rfl
 @[simp] theorem addRev_log (s : St) : (addRev s).log = s.log := rfl
+@[simp] theorem spend_allowed (s : St) : (spend s).allowed = s.allowed := rfl
+@[simp] theorem addCert_allowed (s : St) (b : Bool) : (addCert s b).allowed = s.allowed := rfl
+@[simp] theorem addRev_allowed (s : St) : (addRev s).allowed = s.allowed := rfl
 
-theorem webhook_eq (e : Env) (s : St) (k : Kind) :
-    webhook e s k =
-      if e.f s.log.length = .error then
-        (e.f (s.log.length + 1) == .ok, (call e (call e s k).2 k).2)
-      else (e.f s.log.length == .ok, (call e s k).2) := by
-  unfold webhook
+theorem attempt_eq (e : Env) (s : St) (k : Kind) :
+    attempt e s k =
+      if e.f s.log.length = .error then call e (call e s k).2 k else call e s k := by
+  unfold attempt
   cases h : e.f s.log.length <;> simp [retryable, h]
 
-theorem webhook_log (e : Env) (s : St) (k : Kind) :
-    ∃ t, (webhook e s k).2.log = s.log ++ t ∧ (webhook e s k).2.d = s.d ∧ t.length ≤ 2 ∧
-      (k.isWebhook = true → (webhook e s k).1 = true → benign t = true) := by
-  have hk' : k.isWebhook = true → k.tolerated = false := by
-    cases k <;> simp [Kind.isWebhook, Kind.tolerated]
-  rw [webhook_eq]
+/-- the webhook client appends one or two events and touches nothing else; when the deciding
+    answer is harmless, so is what it appended -/
+theorem attempt_log (e : Env) (s : St) (k : Kind) :
+    ∃ t, (attempt e s k).2.log = s.log ++ t ∧ (attempt e s k).2.d = s.d ∧
+      (attempt e s k).2.allowed = s.allowed ∧ t.length ≤ 2 ∧
+      (k.isWebhook = true → (⟨k, (attempt e s k).1⟩ : Ev).harmless = true → benign t = true) := by
+  rw [attempt_eq]
   by_cases h1 : e.f s.log.length = .error
   · rw [if_pos h1]
-    refine ⟨[⟨k, .error⟩, ⟨k, e.f (s.log.length + 1)⟩], by simp [h1], by simp, by simp, ?_⟩
+    refine ⟨[⟨k, .error⟩, ⟨k, e.f (s.log.length + 1)⟩], by simp [h1], by simp, by simp, by simp, ?_⟩
     intro hw ho
-    simp only [beq_iff_eq] at ho
-    simp [benign, hw, hk' hw, ho]
+    simp only [call_fst, call_log, List.length_append, List.length_cons, List.length_nil] at ho
+    by_cases hh : (⟨k, .error⟩ : Ev).harmless = true
+    · rw [benign_cons_harmless hh]; simpa [benign] using ho
+    · simp [benign, hh, hw, ho]
   · rw [if_neg h1]
-    refine ⟨[⟨k, e.f s.log.length⟩], by simp, by simp, by simp, ?_⟩
+    refine ⟨[⟨k, e.f s.log.length⟩], by simp, by simp, by simp, by simp, ?_⟩
     intro _ ho
-    simp only [beq_iff_eq] at ho
-    simp [benign, ho]
+    simpa [benign] using ho
+
+theorem webhook_eq (e : Env) (s : St) (k : Kind) :
+    webhook e s k = ((attempt e s k).1 == .ok, (attempt e s k).2) := rfl
+
+theorem harmless_ok (k : Kind) : (⟨k, .ok⟩ : Ev).harmless = true := by simp [Ev.harmless]
+
 /-- a step that lets the request continue appended only benign events -/
 theorem execDB_next_benign {e : Env} {s s' : St} {k : Kind} (h : execDB e s k = .next s') :
     ∃ t, s'.log = s.log ++ t ∧ benign t = true := by
@@ -139,64 +147,78 @@ theorem execDB_next_benign {e : Env} {s s' : St} {k : Kind} (h : execDB e s k = 
     split at h
     · split at h
       · cases h
-      · cases h; rename_i ho _; simp at ho; exact ⟨_, call_log .., by simp [benign, ho]⟩
+      · cases h; rename_i ho _; simp at ho; exact ⟨_, call_log .., by simp [benign, Ev.harmless, ho]⟩
     · cases h
     · cases h
   case isRevoked =>
     split at h
-    · cases h; rename_i hc; simp at hc; exact ⟨_, call_log .., by simp [benign, hc.1]⟩
+    · cases h; rename_i hc; simp at hc; exact ⟨_, call_log .., by simp [benign, Ev.harmless, hc.1]⟩
     · cases h
-  case readCert => cases h; exact ⟨_, call_log .., by simp [benign, Kind.tolerated]⟩
-  case readData => cases h; exact ⟨_, call_log .., by simp [benign, Kind.tolerated]⟩
+  case readCert => cases h; exact ⟨_, call_log .., by simp [benign, Ev.harmless, Kind.tolerated]⟩
+  case readData => cases h; exact ⟨_, call_log .., by simp [benign, Ev.harmless, Kind.tolerated]⟩
   case enrich =>
     split at h
     · cases h; rename_i hc
-      obtain ⟨t, ht, _, _, hb⟩ := webhook_log e s .enrich
-      exact ⟨t, ht, hb rfl hc⟩
+      obtain ⟨t, ht, _, _, _, hb⟩ := attempt_log e s .enrich
+      simp only [webhook_eq, beq_iff_eq] at hc
+      exact ⟨t, ht, hb rfl (by rw [hc]; exact harmless_ok _)⟩
     · cases h
   case authorize =>
     split at h
     · cases h; rename_i hc
-      obtain ⟨t, ht, _, _, hb⟩ := webhook_log e s .authorize
-      exact ⟨t, ht, hb rfl hc⟩
+      obtain ⟨t, ht, _, _, _, hb⟩ := attempt_log e s .authorize
+      simp only [webhook_eq, beq_iff_eq] at hc
+      exact ⟨t, ht, hb rfl (by rw [hc]; exact harmless_ok _)⟩
     · cases h
   case store =>
     split at h
-    · cases h; rename_i ho; simp at ho; exact ⟨_, call_log .., by simp [benign, ho]⟩
+    · cases h; rename_i ho; simp at ho; exact ⟨_, call_log .., by simp [benign, Ev.harmless, ho]⟩
     · cases h
     · cases h
   case storeRev =>
     split at h
     · split at h
       · cases h
-      · cases h; rename_i ho _; simp at ho; exact ⟨_, call_log .., by simp [benign, ho]⟩
+      · cases h; rename_i ho _; simp at ho; exact ⟨_, call_log .., by simp [benign, Ev.harmless, ho]⟩
     · cases h
     · cases h
   case check => split at h <;> cases h; exact ⟨[], by simp, rfl⟩
-  case casSign => split at h <;> cases h; exact ⟨[], by simp, rfl⟩
-  case casRevoke => split at h <;> cases h; exact ⟨[], by simp, rfl⟩
-  case acmeRead =>
+  case sshSign => split at h <;> cases h; exact ⟨[], by simp, rfl⟩
+  case casSign =>
     split at h
-    · cases h; rename_i hc; simp at hc; exact ⟨_, call_log .., by simp [benign, hc]⟩
+    · cases h; rename_i hc; simp at hc; exact ⟨_, call_log .., by simp [benign, Ev.harmless, hc]⟩
+    · cases h
+  case req t =>
+    split at h
+    · cases h; rename_i hc; simp at hc; exact ⟨_, call_log .., by simp [benign, Ev.harmless, hc]⟩
     · cases h
   case acmeStoreCert =>
     split at h
-    · cases h; rename_i ho; simp at ho; exact ⟨_, call_log .., by simp [benign, ho]⟩
+    · cases h; rename_i ho; simp at ho; exact ⟨_, call_log .., by simp [benign, Ev.harmless, ho]⟩
     · cases h
-    · cases h
-  case acmeIndex =>
-    split at h
-    · cases h; rename_i hc; simp at hc; exact ⟨_, call_log .., by simp [benign, hc]⟩
     · cases h
   case acmeUpdateOrder =>
     split at h
-    · cases h; rename_i ho; simp at ho; exact ⟨_, call_log .., by simp [benign, ho]⟩
+    · cases h; rename_i ho; simp at ho; exact ⟨_, call_log .., by simp [benign, Ev.harmless, ho]⟩
     · cases h
     · cases h
+  case challenge =>
+    obtain ⟨t, ht, _, _, _, hb⟩ := attempt_log e s .challenge
+    split at h
+    · cases h; rename_i ho; exact ⟨t, ht, hb rfl (by rw [ho]; exact harmless_ok _)⟩
+    · cases h; rename_i ho; exact ⟨t, ht, hb rfl (by rw [ho]; simp [Ev.harmless])⟩
+    · cases h
+  case challengeDone => split at h <;> cases h; exact ⟨[], by simp, rfl⟩
+  case arm => cases h; exact ⟨[], by simp, rfl⟩
+  case notify =>
+    obtain ⟨t, ht, _, _, _, hb⟩ := attempt_log e s .notify
+    split at h
+    · cases h; exact ⟨[], by simp, rfl⟩
+    · cases h; exact ⟨t, ht, hb rfl (by simp [Ev.harmless, Kind.tolerated])⟩
 
 /-- `db.SimpleDB` makes no external call and changes nothing but the in-memory token set -/
 theorem execMem_spec {s s' : St} {k : Kind} (h : execMem s k = .next s' ∨ execMem s k = .abort s') :
-    s'.log = s.log ∧ s'.d.certs = s.d.certs ∧ s'.d.revoked = s.d.revoked ∧
+    s'.log = s.log ∧ s'.d.certs = s.d.certs ∧ s'.d.revoked = s.d.revoked ∧ s'.allowed = s.allowed ∧
     (s.d.tokenSpent = true → s'.d.tokenSpent = true) := by
   cases k <;> simp only [execMem] at h <;> (try split at h) <;> rcases h with h | h <;> cases h <;>
     simp [spend]
@@ -230,10 +252,16 @@ theorem execDB_mono {e : Env} {s s' : St} {k : Kind}
     (s.d.revoked = true → s'.d.revoked = true) ∧ ∃ t, s'.log = s.log ++ t := by
   cases k <;> simp only [execDB] at h
   case enrich =>
-    obtain ⟨t, ht, hd, _, _⟩ := webhook_log e s .enrich
-    split at h <;> rcases h with h | h <;> cases h <;> simp [hd, ht]
+    obtain ⟨t, ht, hd, _, _, _⟩ := attempt_log e s .enrich
+    split at h <;> rcases h with h | h <;> cases h <;> simp [webhook_eq, hd, ht]
   case authorize =>
-    obtain ⟨t, ht, hd, _, _⟩ := webhook_log e s .authorize
+    obtain ⟨t, ht, hd, _, _, _⟩ := attempt_log e s .authorize
+    split at h <;> rcases h with h | h <;> cases h <;> simp [webhook_eq, hd, ht]
+  case challenge =>
+    obtain ⟨t, ht, hd, _, _, _⟩ := attempt_log e s .challenge
+    split at h <;> rcases h with h | h <;> cases h <;> simp [hd, ht]
+  case notify =>
+    obtain ⟨t, ht, hd, _, _, _⟩ := attempt_log e s .notify
     split at h <;> rcases h with h | h <;> cases h <;> simp [hd, ht]
   all_goals
     (repeat' split at h) <;> rcases h with h | h <;> cases h <;>
@@ -245,7 +273,7 @@ theorem exec_mono {e : Env} {s s' : St} {k : Kind}
     (s.d.revoked = true → s'.d.revoked = true) ∧ ∃ t, s'.log = s.log ++ t := by
   unfold exec at h
   split at h
-  · obtain ⟨a, b, c, d⟩ := execMem_spec h
+  · obtain ⟨a, b, c, _, d⟩ := execMem_spec h
     exact ⟨by omega, d, by simp [c], [], by simp [a]⟩
   · exact execDB_mono h
 
@@ -265,45 +293,96 @@ theorem run_mono (e : Env) (ks : List Kind) (s : St) :
       obtain ⟨a, b, c, t, ht⟩ := exec_mono (Or.inr h)
       exact ⟨a, b, c, t, ht⟩
 
+/-! ### the whole request and its failure notification -/
+
+/-- `NotifyFailure` only talks to the NOTIFYING webhooks -/
+theorem notify_only (e : Env) (n : Nat) (s : St) :
+    (run e (List.replicate n .notify) s).1.d = s.d ∧
+    ∃ t, (run e (List.replicate n .notify) s).1.log = s.log ++ t := by
+  induction n generalizing s with
+  | zero => exact ⟨rfl, [], by simp [run]⟩
+  | succ n ih =>
+    obtain ⟨t, ht, hd, _, _, _⟩ := attempt_log e s .notify
+    have hx : ∃ s', exec e s .notify = .next s' ∧ s'.d = s.d ∧ ∃ t, s'.log = s.log ++ t := by
+      simp only [exec, Kind.isStore, Bool.false_eq_true, and_false, if_false, execDB]
+      split
+      · exact ⟨s, rfl, rfl, [], by simp⟩
+      · exact ⟨_, rfl, hd, t, ht⟩
+    obtain ⟨s', hx, hd', t1, ht1⟩ := hx
+    simp only [List.replicate_succ, run, hx]
+    obtain ⟨a, t', ht'⟩ := ih s'
+    exact ⟨by rw [a, hd'], t1 ++ t', by rw [ht', ht1]; simp⟩
+
+theorem runOp_snd (e : Env) (op : Op) (c : Cfg) (d : Durable) :
+    (runOp e op c d).2 = (run e (steps op c) (init op d)).2 := by
+  unfold runOp
+  simp only []
+  split
+  · rename_i h; exact h.1.symm
+  · rfl
+
+theorem runOp_d (e : Env) (op : Op) (c : Cfg) (d : Durable) :
+    (runOp e op c d).1.d = (run e (steps op c) (init op d)).1.d := by
+  unfold runOp
+  simp only []
+  split
+  · exact (notify_only e c.n _).1
+  · rfl
+
+theorem runOp_ok (e : Env) (op : Op) (c : Cfg) (d : Durable) (h : (runOp e op c d).2 = true) :
+    runOp e op c d = run e (steps op c) (init op d) := by
+  rw [runOp_snd] at h
+  unfold runOp
+  simp [h]
+
+theorem client_eq (e : Env) (op : Op) (c : Cfg) (d : Durable) :
+    client op (runOp e op c d) = client op (run e (steps op c) (init op d)) := by
+  simp [client, runOp_snd]
+
 /-! ### the webhook client's decision -/
 
 /-- `DoWithContext` + controller allow the request iff the first attempt is answered
     "allow", or it fails retryably (transport error / 5xx) and the second attempt is answered
-    "allow".  A deadline, a denial (allow=false, 4xx) or an undecodable body on the deciding
-    attempt refuse it. -/
+    "allow".  A deadline, a denial (allow=false), an error status below 500 or an undecodable
+    body on the deciding attempt refuse it. -/
 theorem webhook_allows_iff (e : Env) (s : St) (k : Kind) :
     (webhook e s k).1 = true ↔
       e.f s.log.length = .ok ∨ (e.f s.log.length = .error ∧ e.f (s.log.length + 1) = .ok) := by
-  rw [webhook_eq]
-  cases h : e.f s.log.length <;> simp
+  rw [webhook_eq, attempt_eq]
+  cases h : e.f s.log.length <;> simp [h]
 
 /-- at most two attempts per webhook -/
 theorem webhook_attempts (e : Env) (s : St) (k : Kind) :
     (webhook e s k).2.log.length ≤ s.log.length + 2 := by
-  obtain ⟨t, ht, _, hl, _⟩ := webhook_log e s k
-  rw [ht]; simp; omega
+  obtain ⟨t, ht, _, _, hl, _⟩ := attempt_log e s k
+  rw [webhook_eq]; simp only []; rw [ht]; simp; omega
 
 /-! ### fail closed -/
 
 /-- **fail_closed.** For every operation, configuration, fault function and initial database
     state: if the client receives anything but an error, the trace of external calls the
-    request made is benign — every call was answered `ok`, except reads whose failure the code
-    ignores and retryable webhook failures immediately repaired by the retry. -/
+    request made is benign — every call was answered `ok`, except calls whose failure the code
+    ignores (certificate / data reads, NOTIFYING webhooks), an `allow=false` of one SCEP
+    challenge webhook (another one allowed), and retryable webhook failures immediately
+    repaired by the retry. -/
 theorem fail_closed (e : Env) (op : Op) (c : Cfg) (d : Durable)
     (h : client op (runOp e op c d) ≠ .error) :
     benign (runOp e op c d).1.log = true := by
   unfold client at h
   cases hc : (runOp e op c d).2 with
   | false => simp [hc] at h
-  | true => exact run_benign e _ _ hc (by simp [init, benign])
+  | true =>
+    rw [runOp_ok e op c d hc]
+    rw [runOp_snd] at hc
+    exact run_benign e _ _ hc (by simp [init, benign])
 
-/-- Contrapositive, per position and kind: a deadline, a denial or an undecodable answer at
-    *any* position of the trace (other than an ignored read), and an error at any position
-    that is not an ignored read or a webhook attempt, make the client outcome an error: no
-    certificate, no acknowledged revocation. -/
+/-- Contrapositive, per position and kind: a deadline or an undecodable answer / error status at
+    *any* position of the trace (other than a call whose failure is ignored), a denial anywhere
+    but at a SCEP challenge webhook, and an error at any position that is not a webhook attempt,
+    make the client outcome an error: no certificate, no acknowledged revocation. -/
 theorem fail_closed_at (e : Env) (op : Op) (c : Cfg) (d : Durable) (ev : Ev)
     (hm : ev ∈ (runOp e op c d).1.log) (ht : ev.kind.tolerated = false)
-    (hk : ev.out = .timeout ∨ ev.out = .deny ∨ ev.out = .malformed ∨
+    (hk : ev.out = .timeout ∨ (ev.out = .deny ∧ ev.kind ≠ .challenge) ∨ ev.out = .malformed ∨
           (ev.out = .error ∧ ev.kind.isWebhook = false)) :
     client op (runOp e op c d) = .error ∧ client op (runOp e op c d) ≠ .certificate ∧
     client op (runOp e op c d) ≠ .revoked := by
@@ -311,27 +390,36 @@ theorem fail_closed_at (e : Env) (op : Op) (c : Cfg) (d : Durable) (ev : Ev)
     apply Classical.byContradiction
     intro hne
     have hb := fail_closed e op c d hne
-    rcases benign_mem hb hm with h | h | ⟨hw, he⟩
-    · rcases hk with hk | hk | hk | ⟨hk, _⟩ <;> simp [h] at hk
-    · simp [ht] at h
-    · rcases hk with hk | hk | hk | ⟨_, hk⟩
+    rcases benign_mem hb hm with h | ⟨hw, he⟩
+    · simp only [Ev.harmless, ht, Bool.or_false, Bool.or_eq_true, beq_iff_eq, Bool.and_eq_true] at h
+      rcases h with h | ⟨h1, h2⟩
+      · rcases hk with hk | ⟨hk, _⟩ | hk | ⟨hk, _⟩ <;> simp [h] at hk
+      · rcases hk with hk | ⟨_, hk⟩ | hk | ⟨hk, _⟩
+        · simp [h2] at hk
+        · exact hk h1
+        · simp [h2] at hk
+        · simp [h2] at hk
+    · rcases hk with hk | ⟨hk, _⟩ | hk | ⟨_, hk⟩
       · simp [he] at hk
       · simp [he] at hk
       · simp [he] at hk
       · simp [hw] at hk
   simp [this]
 
-/-- A webhook whose two attempts both fail (a persistent outage) refuses the request. -/
+/-- A webhook the request depends on whose two attempts both fail (a persistent outage, or an
+    outage followed by a refusal) refuses the request.  For a SCEP challenge webhook this is
+    "the first webhook error aborts": a later webhook that would allow is never asked. -/
 theorem fail_closed_webhook_persistent (e : Env) (op : Op) (c : Cfg) (d : Durable)
     (pre post : List Ev) (k : Kind) (o : Outcome)
-    (hl : (runOp e op c d).1.log = pre ++ ⟨k, .error⟩ :: ⟨k, o⟩ :: post) (ho : o ≠ .ok)
-    (hw : k.isWebhook = true) :
+    (hl : (runOp e op c d).1.log = pre ++ ⟨k, .error⟩ :: ⟨k, o⟩ :: post)
+    (ho : (⟨k, o⟩ : Ev).harmless = false) (hw : k.tolerated = false) :
     client op (runOp e op c d) = .error := by
   apply Classical.byContradiction
   intro hne
   have hb := fail_closed e op c d hne
   rw [hl] at hb
-  exact not_benign_double k o post ho hw pre hb
+  have h1 : (⟨k, .error⟩ : Ev).harmless = false := by simp [Ev.harmless, hw]
+  exact not_benign_double k o post h1 ho pre hb
 
 /-! ### stored before returned -/
 
@@ -369,7 +457,8 @@ theorem run_store (e : Env) (hdb : e.db = true) (ks : List Kind) (s : St) (hmem 
 theorem store_mem (op : Op) (c : Cfg) (h : op.revokes = false) : Kind.store ∈ steps op c := by
   cases op <;> simp [Op.revokes] at h <;>
     simp [steps, authorizeSteps, authorizeTokenSteps, signX509Steps, signSSHSteps, renewContextSteps,
-      authorizeRenewSteps, storeRenewedSteps, renewSSHSteps, rekeySSHSteps, finalizeSteps, finalizePre, finalizePost, createCertificateSteps, updateOrderSteps]
+      authorizeRenewSteps, storeRenewedSteps, renewSSHSteps, rekeySSHSteps, finalizeSteps, finalizePre, finalizePost, createCertificateSteps, updateOrderSteps,
+      pkiOperationSteps, signCSRSteps]
 
 /-- **stored_before_returned.** For every issuing operation (sign, renew, rekey, SSH sign /
     renew / rekey, ACME finalize), configuration, fault function and database state: if the
@@ -383,7 +472,10 @@ theorem stored_before_returned (e : Env) (op : Op) (c : Cfg) (d : Durable) (hdb 
   unfold client at h
   cases hc : (runOp e op c d).2 with
   | false => simp [hc] at h
-  | true => exact run_store e hdb _ (init op d) (store_mem op c hop) hc
+  | true =>
+    rw [runOp_ok e op c d hc]
+    rw [runOp_snd] at hc
+    exact run_store e hdb _ (init op d) (store_mem op c hop) hc
 
 /-- Likewise a revocation is acknowledged only after the revocation record call was answered
     `ok`, and the record exists afterwards. -/
@@ -432,7 +524,10 @@ theorem revocation_stored_before_acknowledged (e : Env) (op : Op) (c : Cfg) (d :
       | false => simp [hc, hr] at h
     have hm : Kind.storeRev ∈ steps op c := by
       cases op <;> simp [Op.revokes] at hr <;>
-        simp [steps, authorizeSteps, authorizeTokenSteps, revokeTokenSteps, revokeMTLSSteps, revokeSSHSteps]
+        simp [steps, authorizeSteps, authorizeTokenSteps, revokeTokenSteps, revokeMTLSSteps, revokeSSHSteps,
+          revokeTokenBase, revokeMTLSBase]
+    rw [runOp_ok e op c d hc]
+    rw [runOp_snd] at hc
     exact gen _ (init op d) hm hc
 
 /-! ### token spent -/
@@ -473,8 +568,7 @@ theorem token_spent_after_attempt (e : Env) (op : Op) (c : Cfg) (d : Durable)
     (runOp e op c d).1.d.tokenSpent = true := by
   obtain ⟨rest, hs⟩ := token_recorded_first op c hop
   obtain ⟨s', hx, hsp⟩ := exec_useToken_spends e (init op d) (by simpa [init] using h0)
-  simp only [runOp, hs]
-  rw [run]
+  rw [runOp_d, hs, run]
   rcases hx with hx | hx <;> rw [hx]
   · exact (run_mono e _ s').2.1 hsp
   · exact hsp
@@ -487,9 +581,8 @@ theorem spent_token_refused (e : Env) (op : Op) (c : Cfg) (d : Durable)
     (runOp e op c d).1.d.revoked = d.revoked := by
   obtain ⟨rest, hs⟩ := token_recorded_first op c hop
   obtain ⟨s', hx, h1, h2⟩ := exec_useToken_refuses e (init op d) (by simpa [init] using hd)
-  simp only [runOp, hs, client]
-  rw [run, hx]
-  exact ⟨by simp, by simpa [init] using h1, by simpa [init] using h2⟩
+  rw [client_eq, runOp_d, hs, run, hx]
+  exact ⟨by simp [client], by simpa [init] using h1, by simpa [init] using h2⟩
 
 /-- **token_spent.** A token whose record call was answered in a first attempt — whether that
     attempt then succeeded or failed at any later step under any faults — is refused by every
@@ -517,16 +610,185 @@ theorem run_blocked (e : Env) (k : Kind) (hk : ∀ s, ∃ s', exec e s k = .abor
       · obtain ⟨s'', h⟩ := hk s; rw [h] at hx; cases hx
       · exact ih s' hm'
 
+theorem storeRev_mem (op : Op) (c : Cfg) (hop : op.revokes = true) : Kind.storeRev ∈ steps op c := by
+  cases op <;> simp [Op.revokes] at hop <;>
+    simp [steps, authorizeSteps, authorizeTokenSteps, revokeTokenSteps, revokeMTLSSteps, revokeSSHSteps,
+      revokeTokenBase, revokeMTLSBase]
+
 /-- Without a database that stores revocations a revocation is never acknowledged
     (`ErrNotImplemented` → 501), whatever else happens. -/
 theorem revoke_needs_db (e : Env) (op : Op) (c : Cfg) (d : Durable) (hdb : e.db = false)
     (hop : op.revokes = true) : client op (runOp e op c d) = .error := by
-  have hm : Kind.storeRev ∈ steps op c := by
-    cases op <;> simp [Op.revokes] at hop <;>
-      simp [steps, authorizeSteps, authorizeTokenSteps, revokeTokenSteps, revokeMTLSSteps, revokeSSHSteps]
   have hb := run_blocked e .storeRev (fun s => ⟨s, by simp [exec, hdb, Kind.isStore, execMem]⟩)
-    (steps op c) (init op d) hm
-  simp [client, runOp, hb]
+    (steps op c) (init op d) (storeRev_mem op c hop)
+  rw [client_eq]
+  simp [client, hb]
+
+/-! ### SCEP enrolment -/
+
+/-- a step changes the allow counter only by a challenge webhook that answered `ok` -/
+theorem exec_allowed {e : Env} {s s' : St} {k : Kind} (h : exec e s k = .next s') :
+    s'.allowed = s.allowed ∨ ⟨.challenge, .ok⟩ ∈ s'.log := by
+  unfold exec at h
+  split at h
+  · exact Or.inl (execMem_spec (Or.inl h)).2.2.2.1
+  cases k <;> simp only [execDB] at h
+  case challenge =>
+    obtain ⟨t, ht, _, ha, _, _⟩ := attempt_log e s .challenge
+    split at h
+    · cases h; rename_i ho
+      right
+      -- the deciding answer is the last event appended
+      have : (attempt e s .challenge).2.log = (attempt e s .challenge).2.log := rfl
+      rw [attempt_eq] at ho ⊢
+      by_cases h1 : e.f s.log.length = .error
+      · rw [if_pos h1] at ho ⊢; simp at ho; simp [ho]
+      · rw [if_neg h1] at ho ⊢; simp at ho; simp [ho]
+    · cases h; exact Or.inl ha
+    · cases h
+  case enrich =>
+    obtain ⟨_, _, _, ha, _, _⟩ := attempt_log e s .enrich
+    split at h <;> cases h; exact Or.inl (by simpa [webhook_eq] using ha)
+  case authorize =>
+    obtain ⟨_, _, _, ha, _, _⟩ := attempt_log e s .authorize
+    split at h <;> cases h; exact Or.inl (by simpa [webhook_eq] using ha)
+  case notify =>
+    obtain ⟨_, _, _, ha, _, _⟩ := attempt_log e s .notify
+    split at h <;> cases h
+    · exact Or.inl rfl
+    · exact Or.inl ha
+  all_goals
+    (repeat' split at h) <;> cases h <;> simp
+
+/-- **scep_challenge_accepted.** With SCEP challenge webhooks configured, a certificate is
+    issued only if some challenge webhook answered `allow` in this very request. -/
+theorem scep_challenge_accepted (e : Env) (c : Cfg) (d : Durable) (hch : c.ch ≠ 0)
+    (h : client .scepEnroll (runOp e .scepEnroll c d) = .certificate) :
+    ⟨.challenge, .ok⟩ ∈ (runOp e .scepEnroll c d).1.log := by
+  have gen : ∀ (ks : List Kind) (s : St), (s.allowed = 0 ∨ ⟨.challenge, .ok⟩ ∈ s.log) →
+      Kind.challengeDone ∈ ks → (run e ks s).2 = true → ⟨.challenge, .ok⟩ ∈ (run e ks s).1.log := by
+    intro ks
+    induction ks with
+    | nil => intro s _ hm; simp at hm
+    | cons k ks ih =>
+      intro s hinv hm hc
+      simp only [run] at hc ⊢
+      cases hx : exec e s k with
+      | abort s' => simp [hx] at hc
+      | next s' =>
+        simp only [hx] at hc ⊢
+        obtain ⟨_, _, _, t, ht⟩ := exec_mono (Or.inl hx)
+        have hinv' : s'.allowed = 0 ∨ ⟨.challenge, .ok⟩ ∈ s'.log := by
+          rcases exec_allowed hx with ha | ha
+          · rcases hinv with h0 | h0
+            · exact Or.inl (by rw [ha, h0])
+            · exact Or.inr (by rw [ht]; exact List.mem_append_left _ h0)
+          · exact Or.inr ha
+        by_cases hk : k = .challengeDone
+        · subst hk
+          have hs : s' = s ∧ s.allowed ≠ 0 := by
+            simp only [exec, Kind.isStore, Bool.false_eq_true, and_false, if_false, execDB] at hx
+            by_cases h0 : s.allowed = 0
+            · simp [h0] at hx
+            · simp [h0] at hx; exact ⟨hx.symm, h0⟩
+          obtain ⟨_, _, _, t', ht'⟩ := run_mono e ks s'
+          rcases hinv with h0 | h0
+          · exact absurd h0 hs.2
+          · rw [ht', hs.1]; exact List.mem_append_left _ h0
+        · have hm' : Kind.challengeDone ∈ ks := by
+            rcases List.mem_cons.mp hm with h' | h'
+            · exact absurd h'.symm hk
+            · exact h'
+          exact ih s' hinv' hm' hc
+  unfold client at h
+  cases hc : (runOp e .scepEnroll c d).2 with
+  | false => simp [hc] at h
+  | true =>
+    rw [runOp_ok e _ c d hc]
+    rw [runOp_snd] at hc
+    refine gen _ (init .scepEnroll d) (Or.inl (by simp [init])) ?_ hc
+    simp [steps, pkiOperationSteps, validateChallengeSteps, hch]
+
+/-! ### ACME finalize -/
+
+theorem run_effect (e : Env) (k : Kind) (P : St → Prop)
+    (hstep : ∀ s s', exec e s k = .next s' → P s')
+    (hmono : ∀ (k' : Kind) s s', exec e s k' = .next s' → P s → P s') :
+    ∀ (ks : List Kind) (s : St), k ∈ ks → (run e ks s).2 = true → P (run e ks s).1 := by
+  have keep : ∀ (ks : List Kind) (s : St), P s → (run e ks s).2 = true → P (run e ks s).1 := by
+    intro ks
+    induction ks with
+    | nil => intro s hp _; simpa [run] using hp
+    | cons a ks ih =>
+      intro s hp hc
+      simp only [run] at hc ⊢
+      cases hx : exec e s a with
+      | abort s' => simp [hx] at hc
+      | next s' => simp only [hx] at hc ⊢; exact ih s' (hmono a s s' hx hp) hc
+  intro ks
+  induction ks with
+  | nil => intro s hm; simp at hm
+  | cons a ks ih =>
+    intro s hm hc
+    simp only [run] at hc ⊢
+    cases hx : exec e s a with
+    | abort s' => simp [hx] at hc
+    | next s' =>
+      simp only [hx] at hc ⊢
+      by_cases hk : a = k
+      · subst hk; exact keep ks s' (hstep s s' hx) hc
+      · have hm' : k ∈ ks := by
+          rcases List.mem_cons.mp hm with h' | h'
+          · exact absurd h'.symm hk
+          · exact h'
+        exact ih s' hm' hc
+
+/-- **acme_certificate_complete.** A finalize request that succeeds has recorded the X.509
+    certificate in the authority's table, the ACME certificate object, and the order as valid.
+    Contrapositive (`fault_double_certificate`): whenever the X.509 certificate is stored but
+    the ACME object or the order update is missing, the client got an error and no
+    certificate — and a retried finalize of the still-ready order issues a second one. -/
+theorem acme_certificate_complete (e : Env) (c : Cfg) (d : Durable) (hdb : e.db = true)
+    (h : client .acmeFinalize (runOp e .acmeFinalize c d) = .certificate) :
+    d.certs + 1 ≤ (runOp e .acmeFinalize c d).1.d.certs ∧
+    (runOp e .acmeFinalize c d).1.d.orderValid = true := by
+  refine ⟨(stored_before_returned e .acmeFinalize c d hdb rfl h).2, ?_⟩
+  unfold client at h
+  cases hc : (runOp e .acmeFinalize c d).2 with
+  | false => simp [hc] at h
+  | true =>
+    rw [runOp_ok e _ c d hc]
+    rw [runOp_snd] at hc
+    refine run_effect e .acmeUpdateOrder (fun s => s.d.orderValid = true) ?_ ?_ _ _ ?_ hc
+    · intro s s' hx
+      simp only [exec, Kind.isStore, Bool.false_eq_true, and_false, if_false, execDB] at hx
+      split at hx <;> cases hx; simp
+    · intro k' s s' hx hp
+      unfold exec at hx
+      split at hx
+      · cases k' <;> simp only [execMem] at hx <;> (try split at hx) <;> cases hx <;> simp_all [spend]
+      · cases k' <;> simp only [execDB] at hx
+        case enrich =>
+          obtain ⟨_, _, hd, _, _, _⟩ := attempt_log e s .enrich
+          split at hx <;> cases hx; simp only [webhook_eq]; rw [hd]; exact hp
+        case authorize =>
+          obtain ⟨_, _, hd, _, _, _⟩ := attempt_log e s .authorize
+          split at hx <;> cases hx; simp only [webhook_eq]; rw [hd]; exact hp
+        case challenge =>
+          obtain ⟨_, _, hd, _, _, _⟩ := attempt_log e s .challenge
+          split at hx <;> cases hx <;> (show (attempt e s .challenge).2.d.orderValid = true) <;> rw [hd] <;> exact hp
+        case notify =>
+          obtain ⟨_, _, hd, _, _, _⟩ := attempt_log e s .notify
+          split at hx <;> cases hx
+          · exact hp
+          · show (attempt e s .notify).2.d.orderValid = true
+            rw [hd]; exact hp
+        all_goals
+          (repeat' split at hx) <;> cases hx <;>
+            first
+              | exact hp
+              | simp_all [spend, addCert, addRev, call, decide']
+    · simp [steps, finalizeSteps, finalizePost, updateOrderSteps]
 
 /-! ### the step lists and the source -/
 
@@ -534,34 +796,76 @@ theorem revoke_needs_db (e : Env) (op : Op) (c : Cfg) (d : Durable) (hdb : e.db 
     function body in source order (which the harness re-derives from the Go source on every
     run and the driver compares with `revokeSourceOrder`). -/
 theorem revoke_paths_in_source_order :
-    revokeTokenSteps.isSublist revokeSourceOrder = true ∧
-    revokeMTLSSteps.isSublist revokeSourceOrder = true ∧
+    revokeTokenBase.isSublist revokeSourceOrder = true ∧
+    revokeMTLSBase.isSublist revokeSourceOrder = true ∧
     revokeSSHSteps.isSublist revokeSourceOrder = true := by decide
 
 /-! ### hypotheses are satisfiable (non-trivial instances) -/
 
 def allOk : Env := { f := fun _ => .ok, g := fun _ => true }
 def noDB : Env := { allOk with db := false }
+def wh (e a : Nat) : Cfg := { e := e, a := a }
 
 /-- `ErrNotImplemented` is tolerated: without a database the certificate is issued unrecorded -/
-example : let r := runOp noDB .sign ⟨1, 1⟩ {}
-    client .sign r = .certificate ∧ r.1.d.certs = 0 ∧ r.1.log.length = 2 := by decide
-example : client .revoke (runOp noDB .revoke ⟨0, 0⟩ {}) = .error := by decide
+example : let r := runOp noDB .sign (wh 1 1) {}
+    client .sign r = .certificate ∧ r.1.d.certs = 0 ∧ r.1.log.length = 3 := by decide
+example : client .revoke (runOp noDB .revoke (wh 0 0) {}) = .error := by decide
 
-example : client .sign (runOp allOk .sign ⟨2, 1⟩ {}) = .certificate := by decide
-example : client .revoke (runOp allOk .revoke ⟨0, 0⟩ {}) = .revoked := by decide
-example : (runOp allOk .sign ⟨2, 1⟩ {}).1.log.length = 5 := by decide
+example : client .sign (runOp allOk .sign (wh 2 1) {}) = .certificate := by decide
+example : client .revoke (runOp allOk .revoke (wh 0 0) {}) = .revoked := by decide
+example : (runOp allOk .sign (wh 2 1) {}).1.log.length = 6 := by decide
 /-- a transient webhook failure repaired by the retry: certificate issued, trace benign -/
-example : client .sign (runOp { allOk with f := fun n => if n = 2 then .error else .ok } .sign ⟨2, 1⟩ {}) = .certificate := by decide
+example : client .sign (runOp { allOk with f := fun n => if n = 2 then .error else .ok } .sign (wh 2 1) {}) = .certificate := by decide
 /-- denial at the authorizing webhook: error, token spent, nothing stored -/
-example : let r := runOp { allOk with f := fun n => if n = 3 then .deny else .ok } .sign ⟨2, 1⟩ {}
+example : let r := runOp { allOk with f := fun n => if n = 3 then .deny else .ok } .sign (wh 2 1) {}
     client .sign r = .error ∧ r.1.d.tokenSpent = true ∧ r.1.d.certs = 0 := by decide
 /-- store acknowledgement lost: error although the certificate reached the table -/
-example : let r := runOp { allOk with f := fun n => if n = 1 then .timeout else .ok } .sign ⟨0, 0⟩ {}
+example : let r := runOp { allOk with f := fun n => if n = 2 then .timeout else .ok } .sign (wh 0 0) {}
     client .sign r = .error ∧ r.1.d.certs = 1 := by decide
+/-- the CAS fails: error, nothing stored -/
+example : let r := runOp { allOk with f := fun n => if n = 1 then .error else .ok } .sign (wh 0 0) {}
+    client .sign r = .error ∧ r.1.d.certs = 0 := by decide
 /-- `fail_closed_at` applies: the event is in the trace -/
-example : (⟨.authorize, .deny⟩ : Ev) ∈ (runOp { allOk with f := fun n => if n = 3 then .deny else .ok } .sign ⟨2, 1⟩ {}).1.log := by decide
+example : (⟨.authorize, .deny⟩ : Ev) ∈ (runOp { allOk with f := fun n => if n = 3 then .deny else .ok } .sign (wh 2 1) {}).1.log := by decide
 /-- `token_spent` applies to an attempt that failed in validation -/
-example : client .sign (runOp allOk .sign ⟨0, 0⟩ (runOp { allOk with g := fun i => i != 0 } .sign ⟨0, 0⟩ {}).1.d) = .error := by decide
+example : client .sign (runOp allOk .sign (wh 0 0) (runOp { allOk with g := fun i => i != 0 } .sign (wh 0 0) {}).1.d) = .error := by decide
+/-- revocation recorded, CRL regeneration fails: the client sees an error although the
+    certificate is revoked (stored, not acknowledged) -/
+example : let r := runOp { allOk with f := fun n => if n = 6 then .error else .ok } .revoke { e := 0, a := 0, crl := true } {}
+    client .revoke r = .error ∧ r.1.d.revoked = true := by decide
+
+/-! SCEP -/
+def scep2 : Cfg := { e := 0, a := 0, ch := 2, n := 1 }
+/-- two challenge webhooks, the first says no, the second allows: issued (any-of semantics) -/
+example : client .scepEnroll (runOp { allOk with f := fun n => if n = 0 then .deny else .ok } .scepEnroll scep2 {}) = .certificate := by decide
+/-- the first fails twice (outage), the second would allow: refused, the second is never asked -/
+example : let r := runOp { allOk with f := fun n => if n ≤ 1 then .error else .ok } .scepEnroll scep2 {}
+    client .scepEnroll r = .error ∧ r.1.log.length = 2 := by decide
+/-- a requester to whom the reply cannot be encrypted (no RSA key): the certificate is signed
+    and STORED, the client gets a failure reply, the NOTIFYING webhook is told of the failure -/
+example : let r := runOp { allOk with g := fun i => i != 4 } .scepEnroll scep2 {}
+    client .scepEnroll r = .error ∧ r.1.d.certs = 1 ∧ r.1.log.getLast? = some ⟨.notify, .ok⟩ := by decide
+/-- a failing NOTIFYING webhook does not change the outcome -/
+example : client .scepEnroll (runOp { allOk with f := fun n => if n ≥ 4 then .error else .ok } .scepEnroll scep2 {}) = .certificate := by decide
+
+/-! ACME: which single faults leave an X.509 certificate in the authority's table without an
+    ACME certificate object (`e = a = 0`; positions: 0 reply nonce, 1 nonce use, 2 account,
+    3 order, 4 authorization, 5 its challenge, 6 CAS, 7 store, 8 ACME certificate, 9 serial index,
+    10 order read, 11 order update): exactly a lost acknowledgement of the store (7) and a
+    failed, not applied, write of the ACME certificate object (8).  Every later fault (9, 10, 11)
+    leaves both objects and an order that is still `ready`. In all of them the client gets an
+    error; finalizing again issues a second certificate. -/
+def acmeFault (p : Nat) (o : Outcome) : St × Bool :=
+  runOp { allOk with f := fun n => if n = p then o else .ok } .acmeFinalize (wh 0 0) {}
+
+def acmeOrphan (p : Nat) (o : Outcome) : Bool :=
+  (acmeFault p o).1.d.certs == 1 && (acmeFault p o).1.d.acmeCerts == 0
+
+theorem fault_double_certificate :
+    (List.range 13).all (fun p => [Outcome.error, .timeout, .deny, .malformed].all fun o =>
+      (acmeOrphan p o == ((p == 7 && o == .timeout) || (p == 8 && o != .timeout))) &&
+      -- stored and not handed out: every fault from the store's lost acknowledgement on
+      (((acmeFault p o).1.d.certs == 1 && !(acmeFault p o).2) == ((p == 7 && o == .timeout) || (8 ≤ p && p ≤ 11)))) = true := by
+  decide
 
 end Verif.FailClosed
